@@ -1102,7 +1102,7 @@ func (s *v4Server) handleRelease(req, resp *dhcpv4.DHCPv4) (err error) {
 
 	// TODO(a.garipov): Add a separate notification type for dynamic lease
 	// removal?
-	s.conf.notify(LeaseChangedDBStore)
+	defer s.conf.notify(LeaseChangedDBStore)
 
 	n := 0
 	s.leasesLock.Lock()
